@@ -52,6 +52,12 @@ impl VM {
         }
     }
 
+    /// (stack length, number of frames, globals)
+    #[cfg(feature = "verif")]
+    pub fn verif_state(&self) -> (usize, usize, Vec<Object>) {
+        (self.stack.len(), self.frames.len(), self.globals.clone())
+    }
+
     /// Get a local variable (stored on the stack)
     /// The passed index is the relative position to the base pointer of the current callframe
     /// Performance: Skipping the bounds check here does not yield any significant performance improvement
@@ -70,6 +76,10 @@ impl VM {
     /// Reads a u16 value from the current position in the instructions array
     #[inline(always)]
     fn read_u8(&mut self) -> u8 {
+        #[cfg(feature = "verif")]
+        if self.ip >= self.instructions.len() {
+            crate::verif::probe_fail("operand-outside-code");
+        }
         let v = unsafe { *self.instructions.get_unchecked(self.ip) };
         self.ip += 1;
         v
@@ -79,6 +89,10 @@ impl VM {
     #[inline(always)]
     fn read_u16(&mut self) -> u16 {
         let start = self.ip;
+        #[cfg(feature = "verif")]
+        if start + 2 > self.instructions.len() {
+            crate::verif::probe_fail("operand-outside-code");
+        }
         self.ip += 2;
         let bytes = unsafe { self.instructions.get_unchecked(start..self.ip) };
         bytes[0] as u16 | (bytes[1] as u16) << 8
@@ -96,6 +110,10 @@ impl VM {
     fn next(&mut self) -> OpCode {
         // Safety: if compiler did its job correctly, IP will always be in bounds
         // Performance: skipping the bounds check yields a 22% performance improvement
+        #[cfg(feature = "verif")]
+        if self.ip >= self.instructions.len() {
+            crate::verif::probe_fail("fetch-outside-code");
+        }
         let byte = unsafe { *self.instructions.get_unchecked(self.ip) };
         self.ip += 1;
         OpCode::from(byte)
@@ -106,6 +124,10 @@ impl VM {
     /// Performance: -25% over a regular call to `Vec::pop()`
     #[inline(always)]
     fn pop(&mut self) -> Object {
+        #[cfg(feature = "verif")]
+        if self.stack.is_empty() {
+            crate::verif::probe_fail("pop-empty-stack");
+        }
         debug_assert!(!self.stack.is_empty());
 
         // Safety: if the compiler and VM are implemented correctly, the stack will never be empty
@@ -247,6 +269,11 @@ impl VM {
                 }
             }
 
+            #[cfg(feature = "verif")]
+            if crate::verif::tick() {
+                return Err(Error::TypeError("verif: budget".to_string()));
+            }
+
             match self.next() {
                 OpCode::Const => {
                     let idx = self.read_u16();
@@ -369,6 +396,10 @@ impl VM {
                         args.push(self.pop());
                     }
                     args.reverse();
+                    #[cfg(feature = "verif")]
+                    if builtin > Builtin::Length as u8 {
+                        crate::verif::probe_fail("invalid-builtin");
+                    }
                     let builtin = unsafe { std::mem::transmute::<u8, Builtin>(builtin) };
                     let result = builtins::call(builtin, &args, gc)?;
                     self.push(result);
